@@ -22,8 +22,8 @@ type c03Case struct {
 	Cmd  []string    `json:"cmd,omitempty"` // for tree cases
 	// Stale adds five rules files with one rule and one assembly file each (941..946 without 943) and an assembly
 	// file 943100.ra whose rule exists nowhere: an --all command fails in the middle of its walk
-	Stale bool `json:"stale,omitempty"`
-	Lane string      `json:"lane"`
+	Stale bool   `json:"stale,omitempty"`
+	Lane  string `json:"lane"`
 }
 
 func c03Runs(env *core.Env) int { return env.N(12, 40) }
